@@ -91,7 +91,7 @@ void rawClient(quint16 port, bool tls, const QByteArray &request, int ending, co
     int one = 1;
     ::setsockopt(fd, IPPROTO_TCP, TCP_NODELAY, &one, sizeof one);
     if (g_slowMs > 0) { int rcv = 65536; ::setsockopt(fd, SOL_SOCKET, SO_RCVBUF, &rcv, sizeof rcv); }      // a slow reader with a small window
-    timeval tv{4, 0};
+    timeval tv{8, 0};
     ::setsockopt(fd, SOL_SOCKET, SO_RCVTIMEO, &tv, sizeof tv);
     ::setsockopt(fd, SOL_SOCKET, SO_SNDTIMEO, &tv, sizeof tv);
     SSL_CTX *ctx = nullptr; SSL *ssl = nullptr;
